@@ -948,20 +948,22 @@ $out := readq$u(0)
 ### localtypea structs localtype
 @body
 type record struct{ a, b string }
-r$u := record{a: $in, b: "x"}
+mk$u := func() record { return record{a: $in, b: "x"} }
+r$u := mk$u()
 rt.Nop2(r$u.b)
 $out := r$u.a
 
 ### localtypeb structs localtype
 @body
 type record struct {
-	n int
-	b string
-	a string
+	n    int
+	y, x string
+	rest []string
 }
-r$u := record{n: 1, b: $in, a: "y"}
-rt.Nop2(r$u.a)
-$out := r$u.b
+mk$u := func() record { return record{n: 1, y: $in, x: "y"} }
+r$u := mk$u()
+rt.Nop2(r$u.x)
+$out := r$u.y
 
 ### forkjoindeepa calls extra
 @decls
